@@ -77,6 +77,7 @@ def check(ctx):
     base = r.sample(pool, min(len(pool), 40 if (q and not deep) else 400))
     base += [("sv", "module a; wire x; endmodule\nmodule b (input c, output d); assign d = ~c; endmodule\npackage p; endpackage\n"),
              ("sv", "module m; initial begin $display(\"s\", 4 'b0101, \\esc ); if (a) b = 1; else b = 2; end endmodule\n")]
+    base += [("sv", t) for t in snippets.KW_REGIONS]
     c0 = []
     for i, (k, s) in enumerate(base):
         c = Case("b%d" % i).add("want", "tree", "text")
@@ -96,7 +97,8 @@ def check(ctx):
             continue
         tree = svtree.parse_tree_line(tl[0])
         sk = svtree.skeleton(tree, text=text)
-        rs = runs(tree)
+        # a run that holds a `begin_keywords / `end_keywords directive is not neutral trivia: replacing it would delete the directive
+        rs = [x for x in runs(tree) if b"_keywords" not in text[x[0]:x[1]]]
         if not rs:
             continue
         for _ in range(3 if q and not deep else 12):
@@ -107,6 +109,9 @@ def check(ctx):
                 tv = trivia(r)
                 if esc and tv[0] not in " \t\n":
                     tv = " " + tv
+                # a comment that starts with '/' right behind a '/' (division) or '*' would form another token ('//', '*/')
+                if tv[0] == "/" and a > 0 and t2[a - 1:a] in (b"/", b"*"):
+                    tv = " " + tv
                 t2 = t2[:a] + tv.encode("utf-8") + t2[b:]
             cc = Case("m%d" % n); n += 1
             cc.add("want", "tree", "text").add("run", "preprocess_str", hx(t2.decode("utf-8")), hx("t.sv"))
@@ -114,8 +119,8 @@ def check(ctx):
             cases.append(cc); meta[cc.id] = ("trivia", s, t2.decode("utf-8"), sk)
         # `resetall between descriptions
         ds = [d for d in tree[2] if d[0] == "N" and d[1] == "Description"]
-        if len(ds) >= 1:
-            lv = svtree.leaves(ds[r.randrange(len(ds))])
+        for d in (ds if s in snippets.KW_REGIONS else ds[r.randrange(len(ds)):][:1] if ds else []):
+            lv = svtree.leaves(d)
             if lv:
                 pos = lv[0][1]
                 t2 = text[:pos] + b"`resetall\n" + text[pos:]
